@@ -64,7 +64,7 @@ theorem step_stack (P : Prog) (c : Cfg) :
           · simp
           · split <;> simp
       all_goals (try split) <;> (try split) <;> (try split) <;>
-        simp [Cfg.stackAfter, Cfg.stackOp, Cfg.schedEvs, hc, Spec.Op.apply, Spec.Stack.pop, Spec.Stack.top,
+        simp [Cfg.stackAfter, Cfg.stackOp, Cfg.schedEvs, hc, Spec.Op.apply, Spec.Stack.pop, Spec.Stack.close, Spec.Stack.top,
           Spec.Stack.beneath, Spec.Stack.push, Spec.Op.creates, Spec.Op.name, *]
     · have hf := (step_loopish P c ins rest hc hl).1
       have h := loopish_stackOp c ins rest hc hl
